@@ -58,6 +58,28 @@ fn record(st: &mut Stats, fs: &Findings, inputs: &[&str]) {
 // ---------------------------------------------------------------------------------------------
 // C01
 
+/// Native stack bound. The lexer is a loop over an explicit mode stack: the native stack a call
+/// needs does not depend on the input (measured on the unchanged tree: < 1 KiB in the dev
+/// profile and optimized, over every quick workload). A call that needs more than
+/// `STACK_LIMIT` has recursion whose depth follows the input, i.e. it cannot return on an
+/// ordinary 2 MiB / 8 MiB thread once the input is large enough ("never ... without bound").
+/// The harness threads have 64 MiB stacks so that such a call is measured instead of killing
+/// the process.
+pub const STACK_LIMIT: usize = 128 * 1024;
+
+fn c01_stack(st: &mut Stats, ex: &run::Exec, s: &str) {
+    if ex.stack_used > STACK_LIMIT {
+        st.violation(
+            &Finding::new(
+                "C01.stack",
+                "input-dependent-depth",
+                format!("the call used {} bytes of native stack for a {}-byte source (limit {STACK_LIMIT}): recursion depth follows the input", ex.stack_used, s.len()),
+            ),
+            &[s],
+        );
+    }
+}
+
 fn c01_one(st: &mut Stats, s: &str, src: Src) {
     st.src(src);
     st.cases += 1;
@@ -84,6 +106,7 @@ fn c01_one(st: &mut Stats, s: &str, src: Src) {
             &[s],
         );
     }
+    c01_stack(st, &ex, s);
     match &ex.outcome {
         Outcome::Panic(p) => {
             st.violation(
@@ -220,6 +243,7 @@ fn scaling(ctx: &Ctx, st: &mut Stats) {
             let ex = exec(&s);
             let (peak, total_alloc) = alloc::window_end(base);
             st.observe_exec(&ex);
+            c01_stack(st, &ex, &format!("family {name} n={n}"));
             st.src(Src::Family);
             st.cases += 1;
             st.count("scaling_points", 1);
